@@ -8,6 +8,7 @@ import (
 	_ "verif/props/c05"
 	_ "verif/props/c06"
 	_ "verif/props/c07"
+	_ "verif/props/c10"
 	_ "verif/props/c17"
 	_ "verif/props/c18"
 )
